@@ -4,9 +4,16 @@
   Store model: `Gozod.Model.Store`.  The theorems are about `applyOp` with `cfg.cloneBagAlways = true`
   (the code after pending/C08-clone-bag.diff).  For today's `Internals.Clone` (Bag cloned only when
   non-empty) the step statement is false: `today_partial_mutates_receiver` is the witness
-  (`Record(Enum("a","b"), String()).Partial()` on the real code).  `Meta()` on the non-string types
-  (op `metaSelf`) returns the receiver and rewrites its registry entry: excluded from `c08_step`
-  by the decidable predicate `Op.isMetaSelf`, with the witness `metaSelf_violates`.
+  (`Record(Enum("a","b"), String()).Partial()` on the real code).
+
+  Op class `metaSelf` is LEGACY: until /repo 6ba76b8 `Meta()` on the 28 non-string types was
+  `GlobalRegistry.Add(z, meta); return z` — it returned the receiver and rewrote its registry entry.  Since that commit
+  Meta() clones like Describe() (op `derive` with a registry value) and no method of the library performs `metaSelf` any
+  more: `Proofs/C08Methods.lean` proves over the table regenerated from the source that EVERY chaining method is one of
+  the op classes below (`table_all_covered`), and `c08_full_code` is the full statement over those classes.  The op stays in
+  the shared `Store.Op` type, so `c08_step` keeps `Op.isMetaSelf = false` as "an op class the code has";
+  `metaSelf_violates` / `metaSelf_changes_receiver` remain as theorems about the legacy behaviour (a method that falls
+  back to it turns its table row into class `metaSelf`, which `table_all_covered` rejects).
 -/
 import Gozod.Proofs.StoreLemmas
 
@@ -322,7 +329,8 @@ def StepOK (cfg : Cfg) (σ : Store) (live : List Schema) (recv : Schema) (op : O
 def c08_full (cfg : Cfg) : Prop :=
   ∀ σ live recv op, Inv σ live → recv ∈ live → Op.ok op → StepOK cfg σ live recv op
 
-/-- **c08_step** (the `_partial` theorem: every op class except `Meta()` on non-string types). -/
+/-- **c08_step**: one call of any op class the code has (`Op.isMetaSelf = false` excludes only the legacy class —
+    what `Meta()` did before /repo 6ba76b8; see `table_all_covered` in Proofs/C08Methods.lean). -/
 theorem c08_step (cfg : Cfg) (hcfg : cfg.cloneBagAlways = true) (σ : Store) (live : List Schema)
     (recv : Schema) (op : Op) (hi : Inv σ live) (hr : recv ∈ live) (hok : Op.ok op)
     (hm : op.isMetaSelf = false) :
@@ -340,6 +348,14 @@ theorem c08_step (cfg : Cfg) (hcfg : cfg.cloneBagAlways = true) (σ : Store) (li
     exact Nat.not_le_of_lt this hs
   · intro s hs'
     exact obs_frame s (hi.wf s hs') he
+
+/-- The full statement over the op classes the code has (every class of `Store.Op` except the legacy `metaSelf`). -/
+def c08_full_code (cfg : Cfg) : Prop :=
+  ∀ σ live recv op, Inv σ live → recv ∈ live → Op.ok op → op.isMetaSelf = false → StepOK cfg σ live recv op
+
+/-- **c08_full_holds**: the full statement holds for the code with the repaired `Clone`. -/
+theorem c08_full_holds (cfg : Cfg) (hcfg : cfg.cloneBagAlways = true) : c08_full_code cfg :=
+  fun σ live recv op hi hr hok hm => (c08_step cfg hcfg σ live recv op hi hr hok hm).2
 
 def opsOK (ops : List (Nat × Op)) : Prop := ∀ p ∈ ops, Op.ok p.2 ∧ p.2.isMetaSelf = false
 
@@ -437,8 +453,9 @@ theorem c08_today_false : ¬ c08_full today := by
 example : obs (applyOp fixed baseRecord.1 baseRecord.2 (.bagWrite 4 1)).1.heap baseRecord.2
       = obs baseRecord.1.heap baseRecord.2 := by decide
 
-/-- **Witness (`Meta()` on non-string types)**: the result *is* the receiver and its registry entry changed,
-    so the full statement is false even with the repaired `Clone`; `c08_step` excludes exactly this op class. -/
+/-- **Legacy witness (`Meta()` on non-string types before /repo 6ba76b8)**: the result *is* the receiver and its registry
+    entry changed, so the statement quantified over ALL of `Store.Op` is false even with the repaired `Clone`; the code no
+    longer has this op class. -/
 theorem metaSelf_violates : ¬ c08_full fixed := by
   intro h
   have := (h baseRecord.1 [dummy, baseRecord.2] baseRecord.2 (.metaSelf 5) inv_base (by simp) trivial).1
